@@ -106,5 +106,31 @@ pub fn c20(a: &Args) {
             if got != want { out.fail("corpus-topk", path, &format!("top-{k}"), &format!("{:?}", &got[..got.len().min(10)]), &format!("{:?}", &want[..want.len().min(10)])); }
         }
     }
+    // wide models: x1 and (x2 xor x3) with 63 / 64 / 70 / 130 features, almost all free (the root and-node has one child with two
+    // configurations per free feature: the size of the product of the children's lists exceeds a machine word from 64 on).
+    // With the values v_i = i (feature 1 selected, x2 xor x3 -> feature 3, every free feature selected) the best value is known,
+    // and the next ones differ from it by deselecting the cheapest free features.
+    for total in [63u32, 64, 70, 130] {
+        let lines = vec!["o 1 0".to_string(), "t 2 0".to_string(), "1 2 1 2 -3 0".to_string(), "1 2 1 -2 3 0".to_string()];
+        let text = format!("{} (-t {total})", lines.join(" / "));
+        let Ok(d) = guarded(move || ddnnife::parser::distribute_building(lines, Some(total), None)) else { out.fail("load-panic", &text, "load", "panic", "model"); continue };
+        let vals: Vec<i64> = (1..=total as i64).collect();
+        let ext = ExtendedDdnnf::verif_with_values(d.clone(), vals.iter().map(|&v| v as f64).collect());
+        let best: i64 = 1 + 3 + (4..=total as i64).sum::<i64>();
+        // the k best values: deselect nothing; feature 4; feature 5 or (3 -> 2, i.e. -1); ...  (computed by brute force over the cheap choices)
+        let mut losses: Vec<i64> = Vec::new();
+        for mask in 0u32..(1 << 6) { let mut loss = 0; if mask & 1 == 1 { loss += 1; } for b in 1..6 { if mask >> b & 1 == 1 { loss += 3 + b as i64; } } losses.push(loss); }
+        losses.sort();
+        for k in [1usize, 2, 3, 5] {
+            out.eval(Some(format!("{text}|top-{k}")));
+            out.count("wide_topk", 1);
+            let res = match guarded(|| ext.verif_top_k(k, &[])) { Ok(r) => r, Err(e) => { out.fail("topk-panic", &text, &format!("top-{k}"), &format!("panic: {e}"), "k configurations"); continue; } };
+            let got: Vec<i64> = res.iter().map(|(c, _)| value_of(&vals, c)).collect();
+            let want: Vec<i64> = losses.iter().take(k).map(|l| best - l).collect();
+            if got != want { out.fail("wide-topk", &text, &format!("top-{k} with values v_i = i"), &format!("{:?}", got), &format!("{:?}", want)); continue; }
+            let mut d2 = d.clone();
+            if let Some((c, _)) = res.iter().find(|(c, _)| guarded(|| d2.execute_query(c).to_string()).ok().as_deref() != Some("1")) { out.fail("wide-topk", &text, &format!("top-{k}"), &format!("{:?}", &c[..c.len().min(6)]), "complete models"); }
+        }
+    }
     out.finish("every model of the C01 space x 5 integer objective vectors (tie-free signed powers of two; small tied; large with zeros; all zero; +-5) x 4 assumption lists x best and top-k for k in {1,2,3,count,count+1,random}, vs brute-force ranking of the truth table (ties by value; tie-free vectors compare configurations exactly with the model); corpus: sandwich top-k vs ranking of its full enumeration");
 }
